@@ -856,6 +856,12 @@ class Interp:
         if isinstance(node.slice, ast.Slice):
             lo = self.expr(node.slice.lower, st) if node.slice.lower else None
             hi = self.expr(node.slice.upper, st) if node.slice.upper else None
+            if isinstance(base, SeqV) and base.filt is None and node.slice.step is None:
+                k = int(lo.f.const_value()) if isinstance(lo, Num) and lo.f.is_const() else (0 if lo is None else None)
+                m = -int(hi.f.const_value()) if isinstance(hi, Num) and hi.f.is_const() and hi.f.const_value() < 0 else (0 if hi is None else None)
+                if k is not None and m is not None and k >= 0:
+                    shifted = subst_val(base.elem, {base.var: Frac.atom(base.var) + C(k)}) if k else base.elem
+                    return SeqV(base.var, base.count - C(k + m), shifted, None)
             return self.slice(st, base, lo, hi, node)
         idx = self.expr(node.slice, st)
         if isinstance(base, DictV) and isinstance(idx, Str):
@@ -941,6 +947,8 @@ class Interp:
             return Obj("enumerate", self.expr(args[0], st))
         if name == "reversed":
             return Obj("reversed", self.expr(args[0], st))
+        if name == "zip" and len(args) == 2:
+            return Obj("zip", (self.expr(args[0], st), self.expr(args[1], st)))
         if name in ("list", "tuple"):
             return self.expr(args[0], st) if args else ListV([])
         if name == "str":
@@ -988,6 +996,18 @@ class Interp:
             return v2, count, Num(Frac.atom(v2)), elem
         if isinstance(it, SeqV):
             return it.var, it.count, None, it.elem if it.filt is None else None
+        if isinstance(it, Obj) and it.kind == "zip":
+            da, db = self.iter_domain(it.data[0], st, node), self.iter_domain(it.data[1], st, node)
+            if da is None or db is None or da[3] is None or db[3] is None:
+                return None
+            ea = subst_val(da[3], {da[0]: o})
+            eb = subst_val(db[3], {db[0]: o})
+            d = da[1] - db[1]
+            if d.is_const():
+                count = db[1] if d.const_value() >= 0 else da[1]
+            else:
+                count = mk_fn("min", da[1], db[1])
+            return var, count, None, ListV([ea, eb])
         return None
 
     def reduction(self, name, comp, st: State, node) -> Val:
@@ -1071,6 +1091,21 @@ class Interp:
 
     def e_Lambda(self, node, st):
         return Opaque("lambda")
+
+
+def subst_val(v, mp):
+    """substitute atoms inside a value"""
+    if isinstance(v, Num):
+        return Num(poly.subst(v.f, mp))
+    if isinstance(v, ListV):
+        return ListV([subst_val(x, mp) for x in v.items])
+    if isinstance(v, DictV):
+        return DictV({k: subst_val(x, mp) for k, x in v.items.items()})
+    if isinstance(v, BoolV) and isinstance(v.cond, tuple):
+        return BoolV(poly.subst(v.cond, mp))
+    if isinstance(v, Obj) and v.kind == "candle" and isinstance(v.data, Frac):
+        return Obj("candle", poly.subst(v.data, mp))
+    return v
 
 
 def merge_vals(cond, va: Val, vb: Val):
